@@ -360,6 +360,8 @@ def desugar(text, rules, counts):
             text, c = _r_mapiter(text)
         elif r == "R-MAPCOLLECT":
             text, c = _r_mapcollect(text)
+        elif r == "R-DEREFSET":
+            text, c = _r_derefset(text)
         elif r in ("R-QCLOSURE", "R-UNDERSCORE"):
             text, c = _r_qclosure(text)
         elif r == "R-REC":
@@ -661,6 +663,36 @@ def _r_mapcollect(text):
                % (text[mt.start(1):mt.end(1)].strip(), ctor, recv, pat, recv, op, expr))
         text = text[:mt.start(2)] + new + "\n" * nl + text[end:]
         n += 1
+    return text, n
+
+
+def _r_derefset(text):
+    """R-DEREFSET: a store through a lock guard, `*G = E;` (G a local guard variable) -> `vx_guard_set(&mut G, E);`, and
+    `*(X) = E;` (X an expression producing the guard) -> `{ let mut vx_g = X; vx_guard_set(&mut vx_g, E); }`
+    (Verus has no overloaded DerefMut; vx_guard_set's contract is the model of the store)."""
+    n = 0
+    while True:
+        m = mask(text)
+        mt = re.search(r"(?m)^(\s*)\*\s*(\w+)\s*=\s*", m)
+        mp = re.search(r"(?m)^(\s*)\*\s*\(", m)
+        if mt and (not mp or mt.start() < mp.start()):
+            e = m.index(";", mt.end())
+            text = text[:mt.start()] + mt.group(1) + "vx_guard_set(&mut %s, %s);" % (mt.group(2), text[mt.end():e].strip()) + text[e + 1:]
+            n += 1
+            continue
+        if mp:
+            po = mp.end() - 1
+            pc = match_close(m, po)
+            me = re.match(r"\s*=\s*", m[pc + 1:])
+            if not me:
+                raise SpliceError("R-DEREFSET: `*( .. )` is not the target of an assignment")
+            vs = pc + 1 + me.end()
+            e = m.index(";", vs)
+            text = (text[:mp.start()] + mp.group(1) + "{ let mut vx_g = %s; vx_guard_set(&mut vx_g, %s); }" % (text[po + 1:pc].strip(), text[vs:e].strip())
+                    + text[e + 1:])
+            n += 1
+            continue
+        break
     return text, n
 
 
